@@ -15,5 +15,91 @@ package rsec16
 //@   ensures perGoroutineLength % perGoroutineLengthDivisor == 0
 //@   ensures newNumGoroutines >= 0 && newNumGoroutines <= numGoroutines
 //@   ensures implies(totalLength > 0, newNumGoroutines >= 1)
+//@   ensures implies(totalLength == 0, newNumGoroutines == 0)
 //@   ensures mathint(newNumGoroutines - 1) * mathint(perGoroutineLength) < mathint(totalLength) || totalLength == 0
 //@   ensures mathint(totalLength) <= mathint(newNumGoroutines) * mathint(perGoroutineLength)
+
+// ---------------------------------------------------------------------
+// Applying a matrix to shards: safety, frame, and the fork-join partition
+// (C12; the C07 guarantee that the supplied shards are never altered)
+
+//@ pred matOK(m) = m.rows > 0 && m.columns > 0 && mathint(len(m.elements)) == mathint(m.rows) * mathint(m.columns)
+
+// shardsOK: every input row and every output row in [r0, r1) holds at least n bytes,
+// and no input row overlaps an output row.
+//@ pred shardsOK(in, out, r0, r1, n) = forall(j, 0, len(in), len(in[j]) >= n, in[j]) && forall(r, r0, r1, len(out[r]) >= n, out[r]) && forall(j, 0, len(in), forall(r, r0, r1, disjoint(in[j], out[r]), out[r]), in[j])
+
+//@ func applyMatrixSlice
+//@   props C12 C07
+//@   requires matOK(m) && len(in) >= 1 && len(in) <= m.columns
+//@   requires 0 <= outStart && outEnd <= len(out) && outEnd <= m.rows
+//@   requires 0 <= dataStart && dataStart <= dataEnd && (dataEnd - dataStart) % 2 == 0
+//@   requires shardsOK(in, out, outStart, outEnd, dataEnd)
+//@   modifies each r outStart outEnd : out[r][dataStart:dataEnd]
+//@   loop 0
+//@     invariant i >= outStart
+
+// applyOK: what every entry point needs from (m, in, out): at least one input row, a matrix
+// with a row per output row and a column per input row, rows of one even length n, inputs
+// and outputs not overlapping.
+//@ pred applyOK(m, in, out) = matOK(m) && len(in) >= 1 && len(in) <= m.columns && len(out) >= 1 && len(out) <= m.rows && len(in[0]) % 2 == 0 && shardsOK(in, out, 0, len(out), len(in[0]))
+
+//@ func applyMatrixSingle
+//@   props C12 C07
+//@   requires applyOK(m, in, out)
+//@   panics len(in[0]) != len(out[0])
+//@   modifies each r 0 len(out) : out[r][0:len(in[0])]
+
+//@ lemma mulLe
+//@   props C12 C07
+//@   mode int
+//@   forall a int, b int, c int
+//@   requires 0 <= a && a <= b && c >= 0
+//@   ensures mathint(a)*mathint(c) <= mathint(b)*mathint(c)
+
+//@ lemma mulMod16
+//@   props C12 C07
+//@   mode int
+//@   forall a int, c int
+//@   requires a >= 0 && c % 16 == 0
+//@   ensures (mathint(a)*mathint(c)) % 16 == 0
+//@   induct a := a - 1
+
+//@ func applyMatrixParallelData$1
+//@   props C12 C07
+//@   requires applyOK(m, in, out) && dataLength == len(in[0])
+//@   requires i >= 0 && perGoroutineDataLength >= 16 && perGoroutineDataLength % 16 == 0 && mathint(i) * mathint(perGoroutineDataLength) < mathint(dataLength)
+//@   footprint mathint(i) * mathint(perGoroutineDataLength) ; min(mathint(i) * mathint(perGoroutineDataLength) + mathint(perGoroutineDataLength), mathint(dataLength))
+//@   assert-call applyMatrixSlice : arg3 == 0 && arg4 == len(out) && mathint(arg5) == mathint(i) * mathint(perGoroutineDataLength) && mathint(arg6) == min(mathint(i) * mathint(perGoroutineDataLength) + mathint(perGoroutineDataLength), mathint(dataLength))
+//@   modifies each r 0 len(out) : out[r][i*perGoroutineDataLength : min(i*perGoroutineDataLength+perGoroutineDataLength, dataLength)]
+//@   use mulMod16(i, perGoroutineDataLength)
+
+//@ func applyMatrixParallelData
+//@   props C12 C07
+//@   requires applyOK(m, in, out)
+//@   panics len(in[0]) != len(out[0]) || numGoroutines < 1
+//@   forkjoin 0 ; numGoroutines ; dataLength ; x / perGoroutineDataLength
+//@   modifies each r 0 len(out) : out[r][0:len(in[0])]
+//@   loop 0
+//@     invariant i >= 0
+//@     use mulLe(i, numGoroutines - 1, perGoroutineDataLength)
+//@     use mulLe(0, i, perGoroutineDataLength)
+
+//@ func applyMatrixParallelOut$1
+//@   props C12 C07
+//@   requires applyOK(m, in, out) && outLength == len(out)
+//@   requires i >= 0 && perGoroutineOutLength >= 1 && mathint(i) * mathint(perGoroutineOutLength) < mathint(outLength)
+//@   footprint mathint(i) * mathint(perGoroutineOutLength) ; min(mathint(i) * mathint(perGoroutineOutLength) + mathint(perGoroutineOutLength), mathint(outLength))
+//@   assert-call applyMatrixSlice : arg5 == 0 && arg6 == len(in[0]) && mathint(arg3) == mathint(i) * mathint(perGoroutineOutLength) && mathint(arg4) == min(mathint(i) * mathint(perGoroutineOutLength) + mathint(perGoroutineOutLength), mathint(outLength))
+//@   modifies each r i*perGoroutineOutLength min(i*perGoroutineOutLength+perGoroutineOutLength,outLength) : out[r][0:len(in[0])]
+
+//@ func applyMatrixParallelOut
+//@   props C12 C07
+//@   requires applyOK(m, in, out)
+//@   panics len(in[0]) != len(out[0]) || numGoroutines < 1
+//@   forkjoin 0 ; numGoroutines ; outLength ; x / perGoroutineOutLength
+//@   modifies each r 0 len(out) : out[r][0:len(in[0])]
+//@   loop 0
+//@     invariant i >= 0
+//@     use mulLe(i, numGoroutines - 1, perGoroutineOutLength)
+//@     use mulLe(0, i, perGoroutineOutLength)
